@@ -34,6 +34,11 @@ struct uvec {
   void insert(unsigned pos, unsigned v) { __CPROVER_assert(pos <= n, "vector insert position in range"); __CPROVER_assert(n < UCAP, "stub capacity (vector)"); if (pos <= n && n < UCAP) { uv_shift_up(d, n, pos); d[pos] = v; n = n + 1; } }
   void erase(unsigned pos) { __CPROVER_assert(pos < n, "vector erase position in range"); if (pos < n) { uv_shift_down(d, n, pos); n = n - 1; } }
   void resize(unsigned k) { __CPROVER_assert(k <= UCAP, "stub capacity (vector)"); if (k > n) uv_fill(d, n, k, 0); n = k; }
+  bool empty() const { return n == 0; }
+  unsigned &front() { __CPROVER_assert(n > 0, "front() on a non-empty vector"); return d[0]; }
+  unsigned &back() { __CPROVER_assert(n > 0, "back() on a non-empty vector"); return d[n > 0 && n <= UCAP ? n - 1 : 0]; }
+  unsigned &at(unsigned i) { __CPROVER_assert(i < n, "vector index in bounds"); return d[i < UCAP ? i : 0]; }
+  void pop_back() { __CPROVER_assert(n > 0, "pop_back() on a non-empty vector"); if (n > 0) n = n - 1; }
   void clear() { n = 0; }
   void push_back(unsigned v) { __CPROVER_assert(n < UCAP, "stub capacity (vector)"); if (n < UCAP) { d[n] = v; n = n + 1; } }
 };
@@ -41,7 +46,7 @@ template <class T> T &std_move(T &t) { return t; }
 inline unsigned numeric_cast_unsigned(unsigned x) { return x; }
 extern "C" void stub_partial_sum(unsigned *d, unsigned n) { unsigned acc = 0; for (unsigned i = 0; i < UCAP; i++) if (i < n) { acc = acc + d[i]; d[i] = acc; } }
 inline void partial_sum_inplace(uvec &v) { stub_partial_sum(v.d, v.n); }      /* std::partial_sum(v.begin(), v.end(), v.begin()) */
-namespace std { inline unsigned min(unsigned a, unsigned b) { return a < b ? a : b; } }
+namespace std { inline unsigned min(unsigned a, unsigned b) { return a < b ? a : b; } inline unsigned max(unsigned a, unsigned b) { return a < b ? b : a; } }
 class DenseMatrix {
 public:
   vec_basic m_; unsigned row_, col_;
